@@ -424,6 +424,19 @@ func elemsEq(a, b []value) value {
 			}
 			continue
 		}
+		if pa, ok := a[i].(blob); ok {
+			pb, ok2 := b[i].(blob)
+			if !ok2 || !types.Identical(pa.t, pb.t) {
+				return false
+			}
+			acc = mkAnd(acc, termOf(deepEq(pa.v, pb.v)))
+			if acc.isFalse() {
+				return false
+			}
+			continue
+		} else if _, ok := b[i].(blob); ok {
+			return false
+		}
 		ba, isBa := a[i].(abiBlob)
 		bb, isBb := b[i].(abiBlob)
 		if isBa || isBb {
